@@ -396,19 +396,46 @@ impl OcflRepo {
         self.ensure_open()?;
 
         let inventory = self.get_staged_inventory(object_id)?;
-        let content_path = inventory.content_path_for_logical_path(path, VersionRef::Head)?;
 
-        let version_prefix = format!("{}/", inventory.head);
+        let digest = match inventory.head_version().lookup_digest(path) {
+            Some(digest) => digest.clone(),
+            None => {
+                return Err(RocflError::NotFound(format!(
+                    "Path {} not found in object {} version {}",
+                    path, object_id, inventory.head
+                )))
+            }
+        };
 
-        if content_path.starts_with(&version_prefix) {
-            // The content exists in staging
-            self.get_staging()?
-                .get_object_file(object_id, path, VersionRef::Head, sink)
-        } else {
-            // The content exists in the main repo
-            self.store
-                .get_object_file(object_id, path, inventory.head.previous()?.into(), sink)
+        let direct_path = inventory.new_content_path(path);
+
+        if inventory.digest_for_content_path(&direct_path) == Some(&digest) {
+            // The content exists in staging at the content path that maps directly to the
+            // logical path
+            let mut storage_path = PathBuf::from(&inventory.storage_path);
+            storage_path.push(direct_path.as_path());
+            let mut file = File::open(storage_path)?;
+            std::io::copy(&mut file, sink)?;
+            return Ok(());
         }
+
+        // The content exists in the main repo. The logical path may be new in the staged
+        // version, so locate the content through any earlier version that references it.
+        for (version_num, version) in inventory.versions.iter().rev() {
+            if *version_num == inventory.head {
+                continue;
+            }
+            if let Some(src_path) = version.first_path_for_digest(&digest) {
+                return self
+                    .store
+                    .get_object_file(object_id, &src_path, (*version_num).into(), sink);
+            }
+        }
+
+        Err(RocflError::CorruptObject {
+            object_id: object_id.to_string(),
+            message: format!("Digest {} is not mapped to any content paths", digest),
+        })
     }
 
     /// Returns a vector contain the version metadata for every version of an object that
